@@ -111,6 +111,7 @@ def run? (name : String) : Option Runner :=
   | "physreg" => some fun k => k PhysReg.lineStep ()
   | "riscv_labels" => some fun k => k RiscV.Labels.lineStep ()
   | "value_names" => some fun k => k ValueNames.lineStep ()
+  | "scoped_forest" => some fun k => k ScopedDict.flineStep [(none, [])]
   | _ => none
 
 end Xdsl.Registry
